@@ -17,7 +17,7 @@ ToSet(s) == {s[i] : i \in DOMAIN s}
 TrNames   == DOMAIN Rec[1].L     \* every event carries the whole directory
 TrFormats == {"cdx", "spdx", "syft"}
 Empty     == {}
-TrMissingExec == {"gone"}   \* the driver's name for an exec.d program whose source file does not exist
+TrMissingExec == {"gone", "dangling"}   \* the driver's name for an exec.d program whose source file does not exist
 
 LayerOf(j) == [dir |-> j.dir, files |-> ToSet(j.files), env |-> j.env, execd |-> ToSet(j.execd),
                sbom |-> [f \in Formats |-> j.sbom[f]], toml |-> j.toml]
